@@ -8,31 +8,26 @@
 EXTENDS Session
 
 VARIABLES l,        \* next trace line to consume
-          cur       \* line of the Reset that opened the trace being consumed (0: between traces)
+          cur       \* line of the Reset that opened the trace being consumed
 
 Trace == ndJsonDeserialize("trace.ndjson")
 ResetLines == {i \in 1..Len(Trace) : Trace[i].ev = "Reset"}
 
 tvars == <<vars, l, cur>>
 
-IsEv(e) == l <= Len(Trace) /\ Trace[l].ev = e /\ l' = l + 1 /\ cur' = cur
+IsEv(e) == l < Trace[cur].next /\ Trace[l].ev = e /\ l' = l + 1 /\ cur' = cur
 E == Trace[l]
 
 Fresh(k) == /\ now' = 0 /\ secret' = k /\ nextId' = 0 /\ tok' = <<>> /\ table' = <<>>
             /\ revoked' = {} /\ rotated' = {} /\ last' = NoLast /\ hist' = <<>>
 
-\* register i+1 = high-water mark (next line to consume) of the trace opened by the Reset on line i
-TraceInit == /\ l = 1 /\ cur = 0
-             /\ \A i \in ResetLines : TLCSet(i + 1, i)
+\* Traces are independent: every trace is an initial state of its own (cur = line of its Reset, which
+\* carries the line number `next` of the following Reset), so the search is as deep as the longest trace
+\* and not as the whole file.  Register cur+1 = high-water mark (next line to consume) of that trace.
+TraceInit == /\ cur \in ResetLines /\ l = cur + 1 /\ TLCSet(cur + 1, cur + 1)
              /\ now = 0 /\ secret = 0 /\ nextId = 0 /\ tok = <<>> /\ table = <<>>
              /\ revoked = {} /\ rotated = {} /\ last = NoLast /\ hist = <<>>
 
-\* every trace starts with a Reset line that carries the line number of the next Reset (`next`)
-TraceReset == /\ l <= Len(Trace) /\ Trace[l].ev = "Reset" /\ l' = l + 1 /\ cur' = l /\ Fresh(0)
-\* Traces are independent: a trace can be abandoned at any line (its high-water mark then tells where),
-\* so that one TLC run judges all traces.  All abandon steps of a trace lead to one state.
-TraceAbandon == /\ cur > 0 /\ l <= Len(Trace) /\ Trace[l].ev # "Reset"
-                /\ l' = Trace[cur].next /\ cur' = 0 /\ Fresh(0)
 TraceStart == IsEv("Start") /\ nextId = 0 /\ now = 0 /\ Fresh(E.k)
 
 \* one JSON string per note (TLC wraps long tuples over several lines)
@@ -51,12 +46,12 @@ TraceRefresh  == IsEv("Refresh") /\ Known(E.tok) /\ Note(E.tok)
                  /\ Refresh(E.tok, E.mut, E.ok, E.acc, E.ref, E.fresh)
 TraceRevoke   == IsEv("Revoke") /\ Known(E.tok) /\ Revoke(E.tok, E.mut)
 
-TraceNext == \/ TraceReset \/ TraceAbandon \/ TraceStart \/ TraceTick \/ TraceSecret \/ TraceCreate \/ TraceCreateT
+TraceNext == \/ TraceStart \/ TraceTick \/ TraceSecret \/ TraceCreate \/ TraceCreateT
              \/ TraceValidate \/ TraceForge \/ TraceRefresh \/ TraceRevoke
 
 TraceSpec == TraceInit /\ [][TraceNext]_tvars
 
-HighWater == IF cur > 0 /\ l > TLCGet(cur + 1) THEN TLCSet(cur + 1, l) ELSE TRUE
+HighWater == IF l > TLCGet(cur + 1) THEN TLCSet(cur + 1, l) ELSE TRUE
 \* prints, for every trace, the line of its Reset and its high-water mark; python compares with `next`
 TraceAccepted == \A i \in ResetLines : PrintT(<<"HWM", i, TLCGet(i + 1)>>)
 =============================================================================
